@@ -485,12 +485,36 @@ impl Worker {
                 COMMIT_SIZE
             };
 
-        if events_size + SEGMENT_HEADER_SIZE > writer_set.segment_size {
+        // `events_size` is the uncompressed size. With compression the stored size is only
+        // known once written: it can be much smaller, or (incompressible data) slightly larger
+        // by the 4-byte length prefix and zstd's framing, bounded as below.
+        let stored_upper_bound = if writer_set.compression {
+            events
+                .iter()
+                .map(|event| {
+                    let size = EVENT_HEADER_SIZE
+                        + event.stream_id.len()
+                        + event.event_name.len()
+                        + event.metadata.len()
+                        + event.payload.len();
+                    size + 4 + size / 256 + 64
+                })
+                .sum::<usize>()
+                + COMMIT_SIZE
+        } else {
+            events_size
+        };
+
+        if !writer_set.compression && events_size + SEGMENT_HEADER_SIZE > writer_set.segment_size
+        {
             let _ = reply_tx.send(Err(WriteError::EventsExceedSegmentSize));
             return;
         }
 
-        if write_offset as usize + events_size > writer_set.segment_size
+        // Roll over when the transaction might not fit behind the data already in this
+        // segment. (In an empty segment there is nothing to gain: the write itself decides.)
+        if write_offset as usize > SEGMENT_HEADER_SIZE
+            && write_offset as usize + stored_upper_bound > writer_set.segment_size
             && let Err(err) = writer_set.rollover()
         {
             let _ = reply_tx.send(Err(err));
@@ -519,6 +543,15 @@ impl Worker {
             writer_set.bytes_since_sync = bytes_since_sync;
             error!("failed to set segment file length after write error: {err}");
         }
+        // Not even an empty segment can hold the transaction's stored size.
+        let res = match res {
+            Err(WriteError::Writer(seglog::write::WriteError::SegmentFull { .. }))
+                if write_offset as usize == SEGMENT_HEADER_SIZE =>
+            {
+                Err(WriteError::EventsExceedSegmentSize)
+            }
+            res => res,
+        };
 
         writer_set
             .has_recent_activity
